@@ -43,7 +43,7 @@ func Hash160(label string) util.Uint160 {
 // Contracts are the script hashes of the NeoFS contracts on the fake FS chain.
 type Contracts struct {
 	Netmap, Container, Balance, Reputation, Proxy, NeoFS, Processing, NNS util.Uint160
-	Alphabet                                                             []util.Uint160
+	Alphabet                                                              []util.Uint160
 }
 
 // Env is one node's view: its key, the chain, the real client.
